@@ -34,7 +34,8 @@ RULE = ('seeded projects = vf/gen/dag.py graph wrapped by c13gen extension block
         'end; each configured 6-10 times into a fresh build dir at the same absolute path under '
         'different PYTHONHASHSEED (incl. random), cwd, spelling (configure <build>, configure <src> '
         'from the build dir, configure-into abs/rel/dotted, 9k), unrelated environment variables '
-        'added/removed/reordered, then regenerated under another context; distinct = (project '
+        'added/removed/reordered, the cwd spelled physically or through a symlink with $PWD unset / '
+        'physical / logical (through the symlink) / stale / garbage, then regenerated under another context; distinct = (project '
         'digest, back end, set of contexts); non-trivial = every run configured successfully, the '
         'project produced >= 3 .pc files, >= 4 find dirs and >= 5 distinct contexts')
 ASSUMPTIONS = [
@@ -67,6 +68,7 @@ def floors(tier):
             'regen-files-compared': 80 if q else 800,
             'find_deps-order-differs': 5,       # positive control: the seeds did reorder sets
             'seed:random': 10,
+            'PWD:logical': 20 if q else 200,
             'distinct_nontrivial': 12 if q else 120}
 
 
@@ -83,7 +85,8 @@ def cases(tier, seed):
                       'cwd': rr.choice(['build', 'parent', 'elsewhere', 'src']),
                       'rel': rr.random() < 0.5,
                       'noise': [list(kv) for kv in rr.sample(c13gen.NOISE_POOL, rr.randint(0, 8))],
-                      'order': rr.randint(1, 10 ** 6), 'pwd': rr.random() < 0.5,
+                      'order': rr.randint(1, 10 ** 6), 'pwd': rr.choice(c13gen.PWD_KINDS),
+                      'via': rr.random() < 0.5,
                       'drop': []}]
             yield {'index': i, 'backend': backend, 'project': project, 'runs': runs,
                    'regen': regen}
@@ -94,7 +97,10 @@ def cases(tier, seed):
 
 class Layout:
     def __init__(self, root):
+        root = os.path.realpath(root)
         self.root = root
+        if not os.path.lexists(os.path.join(root, 'link')):
+            os.symlink('.', os.path.join(root, 'link'))
         self.src = os.path.join(root, 'src')
         self.parent = os.path.join(root, 'w')
         self.bld = os.path.join(root, 'w', 'bld')
@@ -106,6 +112,23 @@ class Layout:
                 'build': self.bld}[name]
 
 
+def pwd_value(kind, cwd):
+    """cwd is <root>/<rel>; <root>/link is a symlink to <root> (Layout)."""
+    root = cwd
+    while not os.path.islink(os.path.join(root, 'link')):
+        root = os.path.dirname(root)
+        if root == '/':
+            return cwd
+    rel = os.path.relpath(cwd, root)
+    if kind == 'logical':
+        return os.path.join(root, 'link', rel)
+    if kind == 'stale':
+        return os.path.join(root, 'link', 'w' if rel != 'w' else 'src')
+    if kind == 'garbage':
+        return 'not/an/absolute/path'
+    return cwd          # 'physical' (True in old replay files)
+
+
 def make_env(case, ctx, cwd):
     p = case['project']
     base = core.base_env(dict(proj.stub_toolchain_env(), **p['const_env']))
@@ -114,7 +137,7 @@ def make_env(case, ctx, cwd):
     items.append(('PYTHONHASHSEED', ctx['seed']))
     items += [tuple(kv) for kv in ctx['noise']]
     if ctx.get('pwd'):
-        items.append(('PWD', cwd))
+        items.append(('PWD', pwd_value(ctx['pwd'], cwd)))
     if ctx.get('order'):
         random.Random(ctx['order']).shuffle(items)
     return dict(items)
@@ -177,7 +200,8 @@ def run_configure(case, ctx, lay):
     argv, cwd, need = invocation(case, ctx, lay)
     if need:
         os.makedirs(lay.bld)
-    rc, out = core.run(argv, cwd=cwd, env=make_env(case, ctx, cwd), timeout=180)
+    rc, out = core.run(argv, cwd=pwd_value('logical', cwd) if ctx.get('via') else cwd,
+                       env=make_env(case, ctx, cwd), timeout=180)
     return rc, out, (snapshot(lay.bld) if os.path.isdir(lay.bld) else {})
 
 
@@ -187,8 +211,9 @@ def run_regenerate(case, ctx, lay):
         arg = ['.'] if ctx['rel'] else []
     else:
         arg = [os.path.relpath(lay.bld, cwd) if ctx['rel'] else lay.bld]
-    rc, out = core.run([BFG, 'regenerate'] + arg, cwd=cwd, env=make_env(case, ctx, cwd),
-                       timeout=180)
+    rc, out = core.run([BFG, 'regenerate'] + arg,
+                       cwd=pwd_value('logical', cwd) if ctx.get('via') else cwd,
+                       env=make_env(case, ctx, cwd), timeout=180)
     return rc, out, snapshot(lay.bld)
 
 
@@ -463,7 +488,7 @@ def isolate(case, lay, ref_snap, ctx, rel, res):
     probes += [('hashseed', dict(r0, seed=s)) for s in seeds + ['1', '2', '3', '4']
                if s != r0['seed']]
     probes.append(('invocation', dict(r0, spelling=ctx['spelling'], cwd=ctx['cwd'],
-                                      pwd=ctx.get('pwd', False))))
+                                      pwd=ctx.get('pwd', False), via=ctx.get('via', False))))
     probes.append(('environment', dict(r0, noise=ctx['noise'], order=ctx['order'],
                                        drop=ctx.get('drop', []))))
     dummy = CaseResult()
@@ -519,6 +544,9 @@ def _run_case(case):
             res.ev('spelling:' + ctx['spelling'])
             res.ev('seed:random' if ctx['seed'] == 'random' else 'seed:fixed')
             res.ev('noise-vars', len(ctx['noise']))
+            res.ev('PWD:' + str(ctx.get('pwd') or 'unset'))
+            if ctx.get('via'):
+                res.ev('cwd-through-symlink')
             if ctx.get('bare'):
                 res.ev('found-through-PATH')
             res.classes.add('spelling:' + ctx['spelling'])
